@@ -111,7 +111,9 @@ def check(run):
             fs = list(files)
             if k % 2 == 1:
                 r.shuffle(fs)
-            jobs.append({"files": [[n, t] for n, t in fs], "entry": "entry.ts", "string_formats": [], "number_formats": [], "lazy": k % 3 == 2})
+            jobs.append({"files": [[n, t] for n, t in fs], "entry": "entry.ts", "string_formats": [], "number_formats": [], "lazy": k % 3 == 2,
+                         # the first run of every project compiles it three times in one process (the last time on another thread)
+                         "repeat": 3 if k == 0 else 1})
             meta.append(pi)
     res = common.run_compile(jobs)
     by_proj = collections.defaultdict(list)
@@ -119,6 +121,10 @@ def check(run):
         by_proj[pi].append(json.dumps({"outcome": rr.get("outcome"), "code": rr.get("code"), "diags": rr.get("diags"),
                                        "emit_error": rr.get("emit_error")}, sort_keys=True))
     fails = []
+    for pi, rr in zip(meta, res):
+        if rr.get("repeat_differs"):
+            fails.append(("output-differs-between-compilations-in-one-process", {"files": dict(projects[pi]), "first": {"outcome": rr.get("outcome"), "code": rr.get("code"), "diags": rr.get("diags")},
+                                                                                 "later": rr["repeat_differs"]}))
     for pi, outs in by_proj.items():
         if len(set(outs)) > 1:
             variants = collections.Counter(outs)
@@ -130,7 +136,7 @@ def check(run):
     cov["rule"] = ("multi-file projects (random layouts) and diagnostics-heavy projects (several failing exports behind namespace "
                    "imports, several unresolved names) and mapped types over several literal keys (per-key errors; semantic value types over "
                    "recursive types), each compiled %d times in fresh processes (fresh hash seeds) with shuffled file "
-                   "registration order and eager/lazy parsing; outputs compared byte for byte" % runs)
+                   "registration order and eager/lazy parsing, once of them three times within one process; outputs compared byte for byte" % runs)
     cov["correspondence"]["HashMap iteration sites in beff-core/src vs the sites the model accounts for"] = {
         "cases": len(found), "disagreements": len(unexpected),
         "sites": [{"file": v["file"], "line": v["line"], "text": v["text"], "status": EXPECTED_SITES.get(k, "UNEXPECTED")} for k, v in found.items()]}
